@@ -172,12 +172,16 @@ def check(ctx):
         wd = ctx.scratch.sub("range-conc")
         t = os.path.join(wd, "probe.ndjson")
         core.run_harness(h, ["range", "-mode", "probe", "-out", t, "-dir", wd], wd)
-        runner.run_job(ctx, _job(ctx, "probe", t, _rerun(["-mode", "probe"])))
+        pj = _job(ctx, "probe", t, _rerun(["-mode", "probe"]))
+        runner.run_job(ctx, pj)
+        runner.run_disc(ctx, pj)
         rounds = 4 if ctx.quick else 40
         args = ["-mode", "conc", "-rounds", rounds, "-seed", ctx.seed]
         t = os.path.join(wd, "conc.ndjson")
         core.run_harness(h, ["range"] + args + ["-out", t, "-dir", wd], wd)
-        runner.run_job(ctx, _job(ctx, "conc", t, _rerun(args)))
+        cj = _job(ctx, "conc", t, _rerun(args))
+        runner.run_job(ctx, cj)
+        runner.run_disc(ctx, cj)
         st["concurrent_rounds_16_goroutines"] = rounds
         st["exclusion_probes"] = 2
     st["binding_selftest"] = selftest(ctx, paths[0]) if not ctx.violations else {"skipped": "violations reported"}
